@@ -31,6 +31,7 @@ def run(ck, tier):
     _stale(ck, p, byk)
     stale_use(ck, p, "R-C02-stale")
     collapse_extent(ck, p, "R-C02-condense")
+    typst_order(ck, p, "R-C02-order")
     _adjacent(ck, p, byk)
     from . import c04, c05
     c04._byte_lengths(c05._Sub(ck, "R-C02-units", ""), p)
@@ -951,3 +952,92 @@ def _root_local(f, pv, op):
         else:
             break
     return l
+
+
+# ---------------------------------------------------------------------------------------------------
+# Source order of the parts of a typst_syntax 0.13 AST node, confirmed by reading typst-syntax/src/ast.rs
+# (cast_first_match / nth(k) / skip_while(kind != X) / cast_last_match).  One line of reason each.
+TYPST_ORDER = {
+    "ShowRule": ["selector", "transform"],                 # `show selector: transform` - selector precedes the colon
+    "SetRule": ["target", "args", "condition"],            # `set target(args) if condition`
+    "Conditional": ["condition", "if_body", "else_body"],  # `if c { a } else { b }`
+    "WhileLoop": ["condition", "body"],
+    "ForLoop": ["pattern", "iterable", "body"],            # `for pattern in iterable { body }`
+    "Closure": ["name", "params", "body"],
+    "LetBinding": ["kind", "init"],
+    "DestructAssignment": ["pattern", "value"],
+    "FieldAccess": ["target", "field"],
+    "FuncCall": ["callee", "args"],
+    "Named": ["name", "expr"],
+    "Keyed": ["key", "expr"],
+    "TermItem": ["term", "description"],
+    "Binary": ["lhs", "rhs"],
+}
+
+
+def typst_order(ck, p, rule):
+    """tokens leave the Typst translator in source order: wherever the parts of one AST node are translated and the
+    results concatenated (merge![..] = an array of results, Iterator::chain), the parts appear in the order the table
+    gives; a partition of the children that emits one class before the other is refuted"""
+    fns = [f for f in p.fns.values() if f.name.startswith("harper_typst::typst_translator::") and f.get("kind") != "Promoted" and "::tests" not in f.name]
+    if not ck.anchor(rule, "functions of harper_typst::typst_translator", fns):
+        return
+    n_sites = 0
+    sorted_at_exit = False
+    for g in p.fns.values():
+        if keyname(p, g) == "<Typst as Parser>::parse":
+            sorted_at_exit = any(method(t).startswith("sort") for h in with_closures(p, g) for _, t in h.calls())
+    for f in sorted(fns, key=lambda f: f.name):
+        pv = Prov(f)
+
+        def parts(op):
+            """(node type, accessor) pairs among the deep origins of an operand"""
+            out = set()
+            for o in arg_roots(f, pv, op):
+                if o[0] != "call":
+                    continue
+                ct = f.blocks[o[1]]["t"]
+                inst = norm(inst_of(ct))
+                if not inst.startswith("typst_syntax::ast::") or not ct["args"]:
+                    continue
+                ty = f.local_tystr(place_of(ct["args"][0])[0]) if place_of(ct["args"][0]) else ""
+                m = re.search(r"ast::(\w+)", ty)
+                if m and m.group(1) in TYPST_ORDER and method(ct) in TYPST_ORDER[m.group(1)]:
+                    out.add((m.group(1), method(ct)))
+            return out
+        seqs = []
+        for bi, b in enumerate(f.blocks):
+            if b["cleanup"]:
+                continue
+            for sx in b["s"]:
+                if sx["k"] == "assign" and sx["rv"]["k"] == "agg" and sx["rv"].get("agg") == "array" and len(sx["rv"]["ops"]) > 1:
+                    seqs.append((sx["ln"], "merge![..]", [parts(o) for o in sx["rv"]["ops"]]))
+            t = b["t"]
+            if t["k"] == "call" and method(t) == "chain" and len(t["args"]) == 2:
+                seqs.append((t["ln"], "chain", [parts(t["args"][0]), parts(t["args"][1])]))
+            if t["k"] == "call" and method(t) == "partition" and t["args"]:
+                roots = {last(norm(o[3] or o[2] or "")) for o in arg_roots(f, pv, t["args"][0]) if o[0] == "call"}
+                if roots & {"items", "children", "exprs"}:
+                    n_sites += 1
+                    key = "%s:partition" % keyname(p, f)
+                    if sorted_at_exit:
+                        ck.proved(rule, key, f.loc(t["ln"]), "children are split into two classes, but Typst::parse sorts the tokens before returning them")
+                    else:
+                        ck.refuted(rule, key, f.loc(t["ln"]), "the children of a node are split with partition(..) and the two classes are emitted one after the other: a child of the second class that is written before a child of the first comes out after it, so the tokens are not in source order")
+        for ln, how, ops in seqs:
+            for i in range(len(ops)):
+                for j in range(i + 1, len(ops)):
+                    for (ti, ai) in ops[i]:
+                        for (tj, aj) in ops[j]:
+                            if ti != tj or ai == aj or (ti, aj) in ops[i] or (tj, ai) in ops[j]:
+                                continue
+                            n_sites += 1
+                            order = TYPST_ORDER[ti]
+                            key = "%s:%s:%s-%s" % (keyname(p, f), ti, ai, aj)
+                            if order.index(ai) < order.index(aj):
+                                ck.proved(rule, key, f.loc(ln), "%s: %s() is emitted before %s(), as written in the source" % (ti, ai, aj))
+                            elif sorted_at_exit:
+                                ck.proved(rule, key, f.loc(ln), "%s: %s() before %s() against source order, but Typst::parse sorts the tokens before returning them" % (ti, ai, aj))
+                            else:
+                                ck.refuted(rule, key, f.loc(ln), "%s: the tokens of %s() are emitted before those of %s() (%s), but in the source `%s` comes first: the token stream is not in increasing order, and passes that join neighbouring tokens (number + suffix, contractions) build spans with start > end" % (ti, ai, aj, how, aj))
+    ck.floor(rule, "ordered concatenations of AST parts in the Typst translator", n_sites, 6)
